@@ -70,6 +70,14 @@ def changed_sections(a, b):
     return out
 
 
+def has_marker_keys(x):
+    if isinstance(x, dict):
+        return any(isinstance(k, str) and k.startswith('__key_') for k in x) or any(has_marker_keys(v) for v in x.values())
+    if isinstance(x, (list, tuple)):
+        return any(has_marker_keys(v) for v in x)
+    return False
+
+
 def has_mixed_keys(x):
     if isinstance(x, dict):
         ks = list(x.keys())
@@ -344,6 +352,12 @@ class Dom(Family):
                                  ('utf-8', 'x' * 65535 + '\r\ntail\r\n', 2), ('utf-8', 'y' * 8191 + '\r\n a\n b\r\n', 2)]
                     codec, text, ind = specials[(i // 15) % len(specials)]
                     t = gen_tree(rng)
+                    if (i // 15) % 3 == 0:
+                        # metadata with a key JSON cannot write (a tuple, bytes): such a tree does not serialise; if it ever
+                        # does, reading it back must give the same tree
+                        t['meta'] = dict(opts={'format': {'s': 'json'}},
+                                         content=rng.choice([{'revision map': {'__key_tuple__:r1,r2': 'trunk'}},
+                                                             {'__key_bytes__:6162': 1}, {'m': [{'__key_tuple__:a': {'b': 1}}]}]))
                     t['opts']['encoding'] = {'s': codec}
                     t['pre'] = dict(opts=({} if ind is None else {'indent': {'i': ind}}), content=text)
                     if t['changes']:
@@ -428,6 +442,8 @@ class Dom(Family):
 
     def model_line(self, c):
         r = self._impl(c)
+        if c['kind'] == 'tree' and has_marker_keys(c['tree']):
+            return None         # dictionary keys JSON cannot carry: the value-level model has no such tree (oracle only)
         if c['kind'] == 'tree':
             return L('dom_roundtrip', tree_sx(c['tree']), r['orc'])
         return L('dom_reserialise', '#' + c['data'], r['orc'])
